@@ -402,6 +402,13 @@ FUNCS = [
 	     defaults={'explicit': None, 'listfile': None, 'listfile_dir': None, 'strip_dir': True, 'strip_ext': True},
 	     ret=OPT(TUP(LIST(STR), LIST(STR))), paths=True, locals={'ids': LIST(STR), 'paths': LIST(STR)}, calls={'Path': ('(Py.pathStr {0})', STR, [])},
 	     opaque={"SequenceFile.from_paths(paths, 'fasta', 'auto')": ('s.paths', LIST(STR))}),
+	# --- cluster.py: the CSV of a distance matrix as the rows handed to the csv writer (`csv_rows_prepass`: the writer = the list of rows written so far)
+	dict(name='dump_dmat_csv', file='cluster.py', qual='dump_dmat_csv', module='PyDmatCsv', env=[], strings='plain',
+	     params=[('file', ('obj',)), ('dmat', LIST(LIST(('score',)))), ('row_ids', LIST(STR)), ('col_ids', LIST(STR)), ('corner', OPT(STR)), ('fmt', STR)],
+	     defaults={'corner': None, 'fmt': '0.4f'}, ret=LIST(LIST(STR)), returns_local='writer', csv_open="maybe_open(file, 'w', newline='')",
+	     locals={'writer': LIST(LIST(STR)), 'values_str': LIST(STR)},
+	     opaque={"corner or ''": ('((s.corner).getD [])', STR)},
+	     calls={'format': ('(Py.formatScore {1} {0})', STR, [('(!(Py.formatKnown {1}))', 'Other')])}),
 ]
 
 EXC = {'ValueError', 'TypeError', 'IndexError', 'KeyError', 'AttributeError', 'AssertionError', 'RuntimeError'}
@@ -989,6 +996,10 @@ class Fn:
 				raise Untranslatable(f'set() of {a.ty}')
 			if name == 'set' and not args: return E('[]', SET(NONE))
 			if name == 'dict' and not args: return E('[]', ('dict', NONE, NONE))
+			if name == 'str' and len(args) == 1 and not kw:
+				a = self.value(args[0])
+				if a.ty == STR: return a        # str() of text is the text itself
+				raise Untranslatable(f'str() of {a.ty}')
 			if name == 'int' and len(args) == 1:
 				a = self.value(args[0])
 				if a.ty == INT: return a
@@ -1888,8 +1899,8 @@ class Fn:
 		init = ', '.join(f'{n} := {n}' if n in dict(d['params']) else f'{n} := {default(self.vars[n])}' for n in self.order)
 		if self.gen:
 			fall = 'fun s => .ok s.yielded'
-		elif d.get('returns_param') is not None:
-			fall = f'fun s => .ok s.{d["returns_param"]}'
+		elif d.get('returns_param') is not None or d.get('returns_local') is not None:
+			fall = f'fun s => .ok s.{d.get("returns_param") or d["returns_local"]}'
 		elif d.get('init'):
 			fall = 'fun s => .ok (' + ', '.join(f's.self_{a}' for a in d['init']) + ')'
 		elif ret[0] == 'opt':
@@ -2111,6 +2122,55 @@ def self_to_name(node: ast.FunctionDef, name: str) -> ast.FunctionDef:
 	return ast.fix_missing_locations(R().visit(copy.deepcopy(node)))
 
 
+def csv_rows_prepass(node: ast.FunctionDef, d) -> ast.FunctionDef:
+	"""`dump_dmat_csv`: the function is read as the list of rows it hands to the csv writer.  `with maybe_open(file, 'w', newline='') as fobj:` is
+	its body; `writer = csv.writer(fobj)` starts the list; `writer.writerow(r)` appends `r`; a list display `[a, *b]` is `[a] + list(b)`; a
+	generator expression assigned to a name is the list it yields.  Any other use of these names is untranslatable."""
+	import copy
+	node = copy.deepcopy(node)
+	if not (len(node.body) >= 1 and isinstance(node.body[-1], ast.With) and len(node.body[-1].items) == 1
+			and ast.unparse(node.body[-1].items[0].context_expr) == d['csv_open'] and ast.unparse(node.body[-1].items[0].optional_vars) == 'fobj'):
+		raise Untranslatable(f'the file is not opened with `with {d["csv_open"]} as fobj:` as the last statement')
+	pre = [st for st in node.body[:-1] if not (isinstance(st, ast.Expr) and isinstance(st.value, ast.Constant))]
+	if pre: raise Untranslatable('statements before the file is opened')
+	body = node.body[-1].body
+	if not body or ast.unparse(body[0]) != 'writer = csv.writer(fobj)':
+		raise Untranslatable('the first statement of the block is not `writer = csv.writer(fobj)`')
+	body[0] = ast.parse('writer = []').body[0]
+
+	class R(ast.NodeTransformer):
+		def visit_Expr(self, st):
+			self.generic_visit(st)
+			v = st.value
+			if isinstance(v, ast.Call) and ast.unparse(v.func) == 'writer.writerow' and len(v.args) == 1 and not v.keywords:
+				return ast.copy_location(ast.Expr(value=ast.Call(func=ast.Attribute(value=ast.Name(id='writer', ctx=ast.Load()), attr='append', ctx=ast.Load()), args=v.args, keywords=[])), st)
+			return st
+
+		def visit_List(self, n):
+			self.generic_visit(n)
+			if any(isinstance(e, ast.Starred) for e in n.elts):
+				if not (len(n.elts) == 2 and not isinstance(n.elts[0], ast.Starred) and isinstance(n.elts[1], ast.Starred)):
+					raise Untranslatable(f'list display {ast.unparse(n)!r}')
+				tail = n.elts[1].value
+				if not isinstance(tail, ast.Name):
+					tail = ast.Call(func=ast.Name(id='list', ctx=ast.Load()), args=[tail], keywords=[])
+				return ast.copy_location(ast.BinOp(left=ast.List(elts=[n.elts[0]], ctx=ast.Load()), op=ast.Add(), right=tail), n)
+			return n
+
+		def visit_Assign(self, st):
+			self.generic_visit(st)
+			if isinstance(st.value, ast.GeneratorExp):
+				st.value = ast.copy_location(ast.ListComp(elt=st.value.elt, generators=st.value.generators), st.value)
+			return st
+	node.body = [R().visit(x) for x in body]
+	for x in ast.walk(node):
+		if isinstance(x, ast.Name) and x.id == 'fobj':
+			raise Untranslatable('the opened file is used other than through the csv writer')
+		if isinstance(x, ast.Attribute) and isinstance(x.value, ast.Name) and x.value.id == 'writer' and x.attr != 'append':
+			raise Untranslatable(f'writer.{x.attr}')
+	return ast.fix_missing_locations(node)
+
+
 def find_def(tree: ast.Module, qual: str):
 	parts = qual.split('.')
 	body = tree.body
@@ -2167,6 +2227,8 @@ def regenerate(repo: Path, out_dir: Path, stub: set = frozenset()) -> dict:
 				raise Untranslatable(f'parameters of {d["qual"]} are {want}, the declaration expects {have}')
 			if d.get('inline_local_defs'):
 				node = inline_local_defs(node)
+			if d.get('csv_open'):
+				node = csv_rows_prepass(node, d)
 			node = rename_locals(node)
 			if d.get('split_loop_targets'):
 				node = split_loop_targets(node)
